@@ -6,6 +6,7 @@ import (
 
 	sdkmath "cosmossdk.io/math"
 	sdk "github.com/cosmos/cosmos-sdk/types"
+	"github.com/cosmos/cosmos-sdk/types/bech32"
 	transfertypes "github.com/cosmos/ibc-go/v8/modules/apps/transfer/types"
 	clienttypes "github.com/cosmos/ibc-go/v8/modules/core/02-client/types"
 	channeltypes "github.com/cosmos/ibc-go/v8/modules/core/04-channel/types"
@@ -20,18 +21,20 @@ import (
 )
 
 func main() {
+	pxAddr, _ := bech32.ConvertAndEncode("px", make([]byte, 20))
 	c := lib.NewChain(1, 1, nil)
 	lib.Must(c.NextBlock())
 	port, ch := tok.Channel(c, c.Ctx, 1)
 	vA := tok.VoucherDenom(c, c.Ctx, port, ch, "uaaa")
 	A := tok.AddToken(c, c.Ctx, "eth", 0, true, vA)
+	B := tok.AddOwnVoucherToken(c, c.Ctx, port, ch, "ubbb")
 	lib.Must(c.NextBlock())
-	fmt.Println("channel", port, ch, "voucher", vA, "token", A)
-	mod, ok := c.App.IBCKeeper.Router.GetRoute("transfer")
-	fmt.Println("route", ok, fmt.Sprintf("%T", mod))
+	fmt.Println("channel", port, ch, "voucher", vA, "token", A, B)
+	mod, _ := c.App.IBCKeeper.Router.GetRoute("transfer")
 
 	U := lib.EthKey(1, "u", 0)
 	relayer := lib.EthKey(1, "relayer", 0).Acc()
+	tmod := c.App.AccountKeeper.GetModuleAddress("transfer")
 	rel := func(ctx sdk.Context) []string {
 		var out []string
 		for _, kv := range c.DumpPrefix(ctx, erc20types.StoreKey, erc20types.KeyPrefixIBCTransfer) {
@@ -40,43 +43,84 @@ func main() {
 		return out
 	}
 	show := func(tag string) {
-		fmt.Printf("%s: U bank base=%s voucher=%s erc=%s fx=%s rel=%v\n", tag, tok.Bank(c, c.Ctx, U.Acc(), A.Base), tok.Bank(c, c.Ctx, U.Acc(), vA),
-			tok.BalanceOf(c, c.Ctx, A.Erc20, U.Hex()), tok.Bank(c, c.Ctx, U.Acc(), fxtypes.DefaultDenom), rel(c.Ctx))
+		fmt.Printf("%s: U bank A=%s vA=%s B=%s ercA=%s ercB=%s fx=%s | transfer mod vA=%s B=%s | supply vA=%s B=%s A=%s rel=%v\n", tag,
+			tok.Bank(c, c.Ctx, U.Acc(), A.Base), tok.Bank(c, c.Ctx, U.Acc(), vA), tok.Bank(c, c.Ctx, U.Acc(), B.Base),
+			tok.BalanceOf(c, c.Ctx, A.Erc20, U.Hex()), tok.BalanceOf(c, c.Ctx, B.Erc20, U.Hex()), tok.Bank(c, c.Ctx, U.Acc(), fxtypes.DefaultDenom),
+			tok.Bank(c, c.Ctx, tmod, vA), tok.Bank(c, c.Ctx, tmod, B.Base),
+			c.App.BankKeeper.GetSupply(c.Ctx, vA).Amount, c.App.BankKeeper.GetSupply(c.Ctx, B.Base).Amount, c.App.BankKeeper.GetSupply(c.Ctx, A.Base).Amount, rel(c.Ctx))
 	}
-	// recv with hex receiver
-	data := transfertypes.NewFungibleTokenPacketData("uaaa", "1000", "cosmos1sender", U.Hex().Hex(), "")
-	pkt := channeltypes.NewPacket(data.GetBytes(), 7, "transfer", "channel-9", port, ch, clienttypes.NewHeight(0, 1000), 0)
-	cctx, write := c.Ctx.CacheContext()
-	ack := mod.OnRecvPacket(cctx, pkt, relayer)
-	fmt.Println("ack success", ack.Success(), string(ack.Acknowledgement()))
-	if ack.Success() {
-		write()
+	recv := func(denom, amt, receiver, memo string) {
+		data := transfertypes.NewFungibleTokenPacketData(denom, amt, "cosmos1sender", receiver, memo)
+		pkt := channeltypes.NewPacket(data.GetBytes(), 7, "transfer", "channel-9", port, ch, clienttypes.NewHeight(0, 1000), 0)
+		cctx, write := c.Ctx.CacheContext()
+		ack := mod.OnRecvPacket(cctx, pkt, relayer)
+		fmt.Println("recv", denom, receiver, "ack success", ack.Success(), string(ack.Acknowledgement()))
+		if ack.Success() {
+			write()
+		}
 	}
-	show("after recv")
+	recv("ubbb", "1000", U.Hex().Hex(), "")
+	show("after recv B hex")
+	recv("ubbb", "1000", U.Acc().String(), "")
+	show("after recv B bech32")
+	recv("uaaa", "1000", U.Hex().Hex(), "")
+	show("after recv A hex")
 
-	// send from evm
-	pack, err := crosschaintypes.GetABI().Pack("crossChain", A.Erc20, "px1qqqqqqqqqqqqqqqqqqqqqqqqqqqqqqqqqqqqqqqq", big.NewInt(300), big.NewInt(0), fxtypes.MustStrToByte32("ibc/0/px"), "")
+	// give U ERC-20 of A and fund the voucher pool
+	amt := sdk.NewCoins(sdk.NewCoin(A.Base, sdkmath.NewInt(5000)))
+	lib.Must(c.App.BankKeeper.MintCoins(c.Ctx, "mint", amt))
+	lib.Must(c.App.BankKeeper.SendCoinsFromModuleToAccount(c.Ctx, "mint", U.Acc(), amt))
+	_, err := c.App.Erc20Keeper.ConvertCoin(c.Ctx, &erc20types.MsgConvertCoin{Coin: amt[0], Receiver: U.Hex().Hex(), Sender: U.Acc().String()})
 	lib.Must(err)
-	// approve crosschain precompile
-	app, _ := fxContractERC20Approve(lib.CrosschainPrecompile, big.NewInt(300))
-	r := c.EvmCall(c.Ctx, U.Hex(), &A.Erc20, nil, 1_000_000, app)
-	fmt.Println("approve", r.Failed, r.VmError, r.Err)
-	target := lib.CrosschainPrecompile
-	r = c.EvmCall(c.Ctx, U.Hex(), &target, nil, 3_000_000, pack)
-	fmt.Println("crossChain", r.Failed, r.VmError, r.Err)
-	show("after send")
+	pool := sdk.NewCoins(sdk.NewCoin(vA, sdkmath.NewInt(5000)))
+	lib.Must(c.App.BankKeeper.MintCoins(c.Ctx, "transfer", pool))
+	show("funded")
+
+	send := func(token common.Address, a int64) {
+		pack, err := crosschaintypes.GetABI().Pack("crossChain", token, pxAddr, big.NewInt(a), big.NewInt(0), fxtypes.MustStrToByte32("ibc/0/px"), "")
+		lib.Must(err)
+		r := c.EvmCall(c.Ctx, U.Hex(), &token, nil, 1_000_000, approve(lib.CrosschainPrecompile, big.NewInt(a)))
+		fmt.Println("approve", r.Failed, r.VmError, r.Err)
+		target := lib.CrosschainPrecompile
+		r = c.EvmCall(c.Ctx, U.Hex(), &target, nil, 3_000_000, pack)
+		fmt.Println("crossChain", r.Failed, r.VmError, r.Err)
+	}
+	send(A.Erc20, 300)
+	show("after send A 300")
+	send(B.Erc20, 100)
+	show("after send B 100")
 	seq, _ := c.App.IBCKeeper.ChannelKeeper.GetNextSequenceSend(c.Ctx, port, ch)
 	fmt.Println("next seq", seq)
 	com := c.App.IBCKeeper.ChannelKeeper.GetPacketCommitment(c.Ctx, port, ch, 1)
 	fmt.Printf("commitment %x\n", com)
-	_ = sdkmath.ZeroInt
-	_ = common.Address{}
+	// reconstruct the packet
+	data := transfertypes.NewFungibleTokenPacketData("transfer/channel-0/uaaa", "300", U.Acc().String(), pxAddr, "")
+	timeout := uint64(c.Ctx.BlockTime().UnixNano()) + uint64(c.App.Erc20Keeper.GetIbcTimeout(c.Ctx))
+	pkt := channeltypes.NewPacket(data.GetBytes(), 1, port, ch, port, ch, clienttypes.ZeroHeight(), timeout)
+	fmt.Printf("reconstructed %x\n", channeltypes.CommitPacket(c.App.AppCodec(), pkt))
+
+	okAck := channeltypes.NewResultAcknowledgement([]byte{1}).Acknowledgement()
+	errAck := channeltypes.NewErrorAcknowledgement(fmt.Errorf("x")).Acknowledgement()
+	{
+		err := c.Try(func(ctx sdk.Context) error { return mod.OnAcknowledgementPacket(ctx, pkt, okAck, relayer) })
+		fmt.Println("ack ok err=", err)
+		show("after ack ok")
+	}
+	{
+		err := c.Try(func(ctx sdk.Context) error { return mod.OnAcknowledgementPacket(ctx, pkt, errAck, relayer) })
+		fmt.Println("ack err err=", err)
+		show("after ack err (replayed)")
+	}
+	{
+		err := c.Try(func(ctx sdk.Context) error { return mod.OnTimeoutPacket(ctx, pkt, relayer) })
+		fmt.Println("timeout err=", err)
+		show("after timeout (replayed)")
+	}
 }
 
-func fxContractERC20Approve(spender common.Address, amt *big.Int) ([]byte, error) {
-	// approve(address,uint256) selector 0x095ea7b3
+func approve(spender common.Address, amt *big.Int) []byte {
 	out := []byte{0x09, 0x5e, 0xa7, 0xb3}
 	out = append(out, common.LeftPadBytes(spender.Bytes(), 32)...)
 	out = append(out, common.LeftPadBytes(amt.Bytes(), 32)...)
-	return out, nil
+	return out
 }
